@@ -91,6 +91,24 @@ Fixpoint trim_right (s : bytes) : bytes :=
   end.
 Definition trim (s : bytes) : bytes := trim_right (trim_left s).
 
+(* RFC 9112 5.2 obs-fold, as far as this specification goes: a line that
+   begins with SP / HTAB continues the line before it (the CRLF is removed, the
+   white space kept); empty lines carry nothing *)
+Fixpoint gather (cur : bytes) (ls : list bytes) : list bytes :=
+  match ls with
+  | [] => [cur]
+  | l :: ls' =>
+    match l with
+    | [] => gather cur ls'
+    | c :: _ => if ows c then gather (cur ++ l) ls' else cur :: gather l ls'
+    end
+  end.
+Fixpoint unfold_lines (ls : list bytes) : list bytes :=
+  match ls with
+  | [] => []
+  | l :: ls' => match l with [] => unfold_lines ls' | _ :: _ => gather l ls' end
+  end.
+
 (* the values of the field lines that land on CGI key k, arrival order *)
 Definition field_values (fields : list (bytes * bytes)) (k : bytes) : list bytes :=
   flat_map (fun nv => if negb (has_underscore (fst nv)) && beqb (cgi_key (fst nv)) k
